@@ -548,6 +548,22 @@ func genDocs(o *out, r *rng, thorough bool, suite string) {
 			o.op("xroundtrip %s %s", id, opts)
 		}
 		o.op("oreset")
+		// foreign members whose minification is delicate: escaped quotes and backslashes inside strings,
+		// preceded and followed by whitespace, in keys and values (repaired defect D24)
+		for i, text := range []string{
+			"{\"type\":\"Point\",\"coordinates\":[1,2],\"x y\":\t[ \"q\\\"uote\"\t,\t{\"b\" \n:false\t}]\t}",
+			"{ \"type\" : \"Point\" , \"coordinates\" : [1,2] , \"k\\\"ey\" : \"v\\\\\" , \"n\" : [ 1 , \"\\\\\\\"\" , 2 ] }",
+			"{\"type\":\"Feature\",\"geometry\":{\"type\":\"Point\",\"coordinates\":[1,2]},\"properties\": { \"a\" : \"x\\\"y\" , \"b\" : [ true , null ] } , \"id\" : \"i\\\"d\" }",
+			"{\"type\":\"FeatureCollection\",\"features\":[], \"note\" :  \"say \\\"hi\\\"\"  , \"z\" : { \"q\" : \"\\\\\" } }",
+		} {
+			id := o.newID("Q")
+			opts := randOptsNoRV(r)
+			emitParse(o, "oparsewf", id, opts, text)
+			o.op("ojson %s", id)
+			o.op("xroundtrip %s %s", id, opts)
+			_ = i
+		}
+		o.op("oreset")
 	}
 	if suite == "c05" || suite == "c07" {
 		// arbitrary bytes, truncations and splices
